@@ -56,10 +56,10 @@ def run(R):
                      "harness/proj/skel.go projects the AST onto the skeleton without judging it",
                      "(( )) directly inside ( ) or $( ) is not generated (known finding F-C02-arith-in-paren, probed separately)"]
     if R.tier == "quick":
-        cases = shellgen.bfs(R, 2) + shellgen.focus(R, "wprog", 2, 4)
+        cases = shellgen.bfs(R, 2) + shellgen.focus(R, "wprog", 2, 4) + shellgen.focus(R, "prprog", 1)
         sim = shellgen.simulate(R, 400)
     else:
-        cases = shellgen.bfs(R, 3) + shellgen.focus(R, "wprog", 3, 4)
+        cases = shellgen.bfs(R, 3) + shellgen.focus(R, "wprog", 3, 4) + shellgen.focus(R, "prprog", 1)
         sim = shellgen.simulate(R, 6000)
     nb = len(cases)
     allc = shellgen.dedup(cases + sim)
